@@ -16,6 +16,8 @@ def total (p : IPTP) : Int := p.1 * 1000000000 + p.2
 def Norm (p : IPTP) : Prop := 0 ≤ p.2 ∧ p.2 < 1000000000
 
 example : Norm (1700000000, 999999999) := by simp [Norm]
+/-- a pair of operands for the two-operand statements below: present-day epoch, 2 ns apart across a second boundary -/
+example : Norm (1700000000, 999999999) ∧ Norm (1700000001, 1) := by simp [Norm]
 
 /-! ### carriage -/
 
@@ -77,6 +79,8 @@ theorem rtc_pack_unpack (c : Nat) (h : c < 2 ^ 48) :
     bits_simp
     congr 1; omega
 
+example : (0xFFFFFFFFFFFF : Nat) < 2 ^ 48 ∧ (0x123456789ABC : Nat) < 2 ^ 48 := by decide
+
 /-- quirk: a count that does not fit 48 bits is silently reduced modulo 2⁴⁸ by `pack` (never an error) -/
 theorem rtc_pack_masks (c : Nat) : rtcPack c = rtcPack (c % 2 ^ 48) := by
   simp only [rtcPack]
@@ -87,7 +91,10 @@ theorem rtc_pack_masks (c : Nat) : rtcPack c = rtcPack (c % 2 ^ 48) := by
 
 /-! ### arithmetic -/
 
-/-- `a + b`: exact, and the nanoseconds end up in [0, 10⁹) — for ALL integer operands -/
+/-- `a + b`: exact, and the nanoseconds end up in [0, 10⁹) — for ALL integer operands OF THE MODEL.
+    (rev2 review: the code computes `int(addns % 1e9)` and `int(addns // 1e9)` in binary64; the model's integer `%` and
+    `/` are those operations exactly as long as |addns| < 2⁵³, which covers every pair of 32-bit — indeed 52-bit —
+    nanosecond fields.  Beyond that the statement is about the model only.) -/
 theorem ptp_add_exact (a b : IPTP) :
     total (ptpAdd a b) = total a + total b ∧ Norm (ptpAdd a b) := by
   simp only [total, ptpAdd, Norm]
@@ -115,6 +122,10 @@ theorem ptp_sub_add_cancel (a b : IPTP) (ha : Norm a) (hb : Norm b) : ptpAdd (pt
   by_cases hc : b2 > a2
   · simp only [hc, ↓reduceIte, Prod.mk.injEq]; constructor <;> omega
   · simp only [hc, ↓reduceIte, Prod.mk.injEq]; constructor <;> omega
+
+/-- instances at a present-day epoch: the borrow and the carry -/
+example : ptpSub (1700000001, 1) (1700000000, 999999999) = (0, 2) ∧ ptpAdd (0, 2) (1700000000, 999999999) = (1700000001, 1) := by
+  decide
 
 /-! ### ordering -/
 
@@ -146,6 +157,10 @@ theorem ptp_gt_iff_total (a b : IPTP) (ha : Norm a) (hb : Norm b) : ptpGt a b = 
   rw [ptp_gt_iff_lex]; simp only [total, Norm] at *; omega
 theorem ptp_ge_iff_total (a b : IPTP) (ha : Norm a) (hb : Norm b) : ptpGe a b = true ↔ total b ≤ total a := by
   rw [ptp_ge_iff_lex]; simp only [total, Norm] at *; omega
+
+/-- the witness of the former defect (float comparison could not resolve 1 ns at 1.7·10⁹ s) is ordered correctly -/
+example : ptpLt (1700000000, 1) (1700000000, 2) = true ∧ ptpLe (1700000000, 2) (1700000000, 1) = false ∧
+    ptpGt (1700000000, 2) (1700000000, 1) = true ∧ ptpGe (1700000000, 1) (1700000000, 2) = false := by decide
 
 /-- consistency of the six operators: exactly one of `<`, `==`, `>` holds; `<=` is `<` or `==` -/
 theorem ptp_trichotomy (a b : IPTP) :
@@ -192,6 +207,16 @@ theorem pinksheet_eq (s ns : Nat) (_hs : s < 2 ^ 32) (_hn : ns < 1000000000) :
     pinksheet s ns = ((s * 1000000000 + ns) / 100) % 2 ^ 48 := by
   simp only [pinksheet]
   exact Nat.and_two_pow_sub_one_eq_mod _ 48
+
+/-- the same equation holds of the MODEL for all naturals (the two hypotheses above are not used by the proof: they
+    delimit where the model's integer arithmetic is the code's `Decimal` arithmetic, 28 significant digits) -/
+theorem pinksheet_eq_model (s ns : Nat) : pinksheet s ns = ((s * 1000000000 + ns) / 100) % 2 ^ 48 := by
+  simp only [pinksheet]
+  exact Nat.and_two_pow_sub_one_eq_mod _ 48
+
+example : (1700000000 : Nat) < 2 ^ 32 ∧ (999999999 : Nat) < 1000000000 ∧ pinksheet 1700000000 999999999 = 17000000009999999 % 2 ^ 48 ∧
+    pinksheet 1700000000 999999999 = 111501407360639 := by
+  decide
 
 example : pinksheet 1 250 = 10000002 := by decide
 
